@@ -587,3 +587,171 @@ Proof.
         -- exact (ND3 i Hd Hi).
     + rewrite Fl1. apply fl_ok_app. split; auto.
 Qed.
+
+(* ------------------------------------------------------------------ blocks and chains *)
+
+Lemma Blk5_ext : forall jub h seen b b2,
+  s_entries (b_st b2) = s_entries (b_st b) -> s_id2seq (b_st b2) = s_id2seq (b_st b) ->
+  s_num2seq (b_st b2) = s_num2seq (b_st b) -> b_blessed b2 = b_blessed b -> b_cursed b2 = b_cursed b ->
+  b_next b2 = b_next b -> b_flot b2 = b_flot b ->
+  Blk5 jub h seen b -> Blk5 jub h seen b2.
+Proof.
+  intros jub h seen b b2 E1 E2 E3 E4 E5 E6 E7 [KI KS KN KF KO].
+  split; unfold Inv5b in *; rewrite ?E1, ?E2, ?E3, ?E4, ?E5, ?E6, ?E7; auto.
+Qed.
+
+Lemma Blk5_weaken : forall jub h seen seen' b,
+  (forall x, In x seen -> In x seen') -> Blk5 jub h seen b -> Blk5 jub h seen' b.
+Proof.
+  intros jub h seen seen' b W [KI KS KN KF KO]. split; auto.
+  intros i Hi. destruct (KF i Hi). auto.
+Qed.
+
+Lemma index_tx_blk5 : forall cfg h insc first t seen b b',
+  Blk5 (c_jubilee cfg) h seen b -> ~ In (t_id t) seen ->
+  index_tx cfg h insc first t b = Ok b' ->
+  Blk5 (c_jubilee cfg) h (t_id t :: seen) b'.
+Proof.
+  intros cfg h insc first t seen b b' HB Hf H. unfold index_tx in H.
+  dbind H. destruct a as [ents utxo1]. dbind H. destruct a as [[per_out in_ranges] b1].
+  assert (Hb1 : s_entries (b_st b1) = s_entries (b_st b) /\ s_id2seq (b_st b1) = s_id2seq (b_st b) /\
+                s_num2seq (b_st b1) = s_num2seq (b_st b) /\ b_blessed b1 = b_blessed b /\
+                b_cursed b1 = b_cursed b /\ b_next b1 = b_next b /\ b_flot b1 = b_flot b).
+  { destruct (c_sats cfg).
+    - dbind E0. destruct a as [po lft]. destruct first; inv E0; cbn; repeat split.
+    - inv E0. repeat split. }
+  destruct Hb1 as (Q1 & Q2 & Q3 & Q4 & Q5 & Q6 & Q7).
+  match type of H with (if insc then index_inscriptions _ _ _ _ _ ?B else _) = _ => set (b2 := B) in * end.
+  assert (HB2 : Blk5 (c_jubilee cfg) h seen b2).
+  { eapply Blk5_ext; [ | | | | | | | exact HB]; subst b2; unfold set_st, with_utxo; cbn; auto. }
+  destruct insc.
+  - eapply index_inscriptions_blk5; eauto.
+  - inv H. eapply Blk5_weaken; [|exact HB2]. intros x Hx. right. auto.
+Qed.
+
+Lemma index_txs_blk5 : forall cfg h insc l seen b b',
+  Blk5 (c_jubilee cfg) h seen b -> NoDup (map t_id l) -> (forall x, In x (map t_id l) -> ~ In x seen) ->
+  index_txs cfg h insc l b = Ok b' ->
+  exists seen', Blk5 (c_jubilee cfg) h seen' b' /\ (forall x, In x seen' <-> In x (map t_id l) \/ In x seen).
+Proof.
+  intros cfg h insc l. induction l as [|t r IH]; intros seen b b' HB ND FR H; cbn [index_txs] in H.
+  - inv H. exists seen. split; auto. intro x. cbn. tauto.
+  - dbind H. rename a into b1. cbn [map] in ND, FR. inv ND.
+    assert (HB1 : Blk5 (c_jubilee cfg) h (t_id t :: seen) b1).
+    { eapply index_tx_blk5; eauto. apply FR. left. reflexivity. }
+    assert (FR1 : forall x, In x (map t_id r) -> ~ In x (t_id t :: seen)).
+    { intros x Hx [Hs|Hs]; [subst; contradiction | apply (FR x); [right|]; auto]. }
+    destruct (IH _ _ _ HB1 H3 FR1 H) as (seen' & HB' & HS).
+    exists seen'. split; auto. intro x. rewrite HS. cbn [map In]. tauto.
+Qed.
+
+Lemma maxkey_ge : forall {V} (E : list (N * V)) k, In k (map fst E) ->
+  k <= fold_right (fun kv a => N.max (fst kv) a) 0 E.
+Proof.
+  intros V E. induction E as [|kv r IH]; intros k Hk; cbn [map In fold_right] in *; [tauto|].
+  destruct Hk as [Hk|Hk]; [subst; lia | specialize (IH _ Hk); lia].
+Qed.
+
+Lemma maxkey_in : forall {V} (E : list (N * V)), E <> [] ->
+  In (fold_right (fun kv a => N.max (fst kv) a) 0 E) (map fst E).
+Proof.
+  intros V E. induction E as [|kv r IH]; intro Hne; [congruence|]. cbn [map In fold_right].
+  destruct r as [|kv2 r2].
+  - cbn. left. lia.
+  - assert (Hr : kv2 :: r2 <> []) by congruence. specialize (IH Hr).
+    set (m := fold_right (fun kv a => N.max (fst kv) a) 0 (kv2 :: r2)) in *.
+    destruct (N.max_spec (fst kv) m) as [[_ ->]|[_ ->]]; auto.
+Qed.
+
+Lemma next_seq_of_dom : forall (E : list (N * ientry)) nx,
+  (forall s, tgN s E <> None <-> s < nx) -> next_seq_of E = nx.
+Proof.
+  intros E nx D. unfold next_seq_of. destruct E as [|kv r] eqn:EE.
+  - destruct (N.eq_dec nx 0) as [|Hn]; auto. exfalso. assert (H : 0 < nx) by lia. apply D in H. apply H. reflexivity.
+  - rewrite <- EE in *. assert (Hne : E <> []) by (rewrite EE; congruence).
+    set (m := fold_right (fun kv a => N.max (fst kv) a) 0 E).
+    assert (Hm : In m (map fst E)) by (apply maxkey_in; auto).
+    apply (tget_keys N.eqb N.eqb_eq) in Hm. apply D in Hm.
+    assert (Hp : nx - 1 < nx) by lia. apply D in Hp. apply (tget_keys N.eqb N.eqb_eq) in Hp.
+    apply maxkey_ge in Hp. fold m in Hp. lia.
+Qed.
+
+Definition Inv5s (jub : N) (st : state) : Prop :=
+  Inv5 jub (s_entries st) (s_id2seq st) (s_num2seq st) (s_blessed st) (s_cursed st) (next_seq_of (s_entries st)).
+
+Definition St5 (jub : N) (seen : list N) (st : state) : Prop :=
+  Inv5s jub st /\ (forall i, dom (s_id2seq st) i -> In (fst i) seen).
+
+Lemma index_block_st5 : forall cfg h blk seen st st',
+  St5 (c_jubilee cfg) seen st -> NoDup (map t_id blk) -> (forall x, In x (map t_id blk) -> ~ In x seen) ->
+  index_block cfg h blk st = Ok st' ->
+  exists seen', St5 (c_jubilee cfg) seen' st' /\ (forall x, In x seen' <-> In x (map t_id blk) \/ In x seen).
+Proof.
+  intros cfg h blk seen st st' [HI HS] ND FR H. unfold index_block in H.
+  dbind H. rename a into cb. dbind H. rename a into b1. dbind H. rename a into b2. inv H.
+  match type of E0 with index_txs _ _ _ _ ?B = _ => set (b0 := B) in * end.
+  assert (HB0 : Blk5 (c_jubilee cfg) h seen b0).
+  { split; subst b0; unfold Inv5b; cbn; auto.
+    - constructor.
+    - intros i [].
+    - intros f []. }
+  assert (exists seen', Blk5 (c_jubilee cfg) h seen' b2 /\ (forall x, In x seen' <-> In x (map t_id blk) \/ In x seen)) as (seen' & HB2 & HS').
+  { destruct blk as [|t0 r].
+    - cbn [tl] in E0. cbn in E0. inv E0. inv E1. exists seen. split; auto. intro x. cbn. tauto.
+    - cbn [tl] in E0. cbn [map] in ND, FR. inv ND.
+      assert (FR1 : forall x, In x (map t_id r) -> ~ In x seen).
+      { intros x Hx. apply FR. right. auto. }
+      destruct (index_txs_blk5 cfg h _ r seen b0 b1 HB0 H2 FR1 E0) as (s1 & HB1 & HS1).
+      exists (t_id t0 :: s1). split.
+      + eapply index_tx_blk5; eauto. intro Hx. apply HS1 in Hx. destruct Hx as [Hx|Hx]; [contradiction|].
+        apply (FR (t_id t0)); [left|]; auto.
+      + intro x. cbn [In map]. rewrite HS1. tauto. }
+  exists seen'. split; auto. destruct HB2 as [KI KS _ _ _]. split.
+  - unfold Inv5s. cbn [s_entries s_id2seq s_num2seq s_blessed s_cursed].
+    rewrite (next_seq_of_dom _ (b_next b2)); [exact KI | apply KI].
+  - cbn [s_id2seq]. exact KS.
+Qed.
+
+Definition chain_txids (c : list block) : list N := concat (map (map t_id) c).
+
+Lemma index_chain_st5 : forall cfg c h seen st st',
+  St5 (c_jubilee cfg) seen st -> NoDup (chain_txids c) -> (forall x, In x (chain_txids c) -> ~ In x seen) ->
+  index_chain cfg h c st = Ok st' ->
+  exists seen', St5 (c_jubilee cfg) seen' st' /\ (forall x, In x seen' <-> In x (chain_txids c) \/ In x seen).
+Proof.
+  intros cfg c. induction c as [|blk r IH]; intros h seen st st' HS ND FR H; cbn [index_chain] in H.
+  - inv H. exists seen. split; auto. intro x. cbn. tauto.
+  - dbind H. rename a into st1. unfold chain_txids in ND, FR. cbn [map concat] in ND, FR.
+    apply NoDup_app_iff in ND. destruct ND as (ND1 & ND2 & ND3).
+    assert (FR1 : forall x, In x (map t_id blk) -> ~ In x seen).
+    { intros x Hx. apply FR. apply in_or_app. auto. }
+    destruct (index_block_st5 cfg h blk seen st st1 HS ND1 FR1 E) as (s1 & HS1 & HQ1).
+    assert (FR2 : forall x, In x (chain_txids r) -> ~ In x s1).
+    { intros x Hx Hs. apply HQ1 in Hs. destruct Hs as [Hs|Hs].
+      - exact (ND3 x Hs Hx).
+      - apply (FR x); auto. apply in_or_app. auto. }
+    destruct (IH (h + 1) s1 st1 st' HS1 ND2 FR2 H) as (s2 & HS2 & HQ2).
+    exists s2. split; auto. intro x. rewrite HQ2, HQ1. unfold chain_txids. cbn [map concat]. rewrite in_app_iff. tauto.
+Qed.
+
+Lemma St5_empty : forall jub, St5 jub [] empty_state.
+Proof.
+  intro jub. split.
+  - unfold Inv5s. cbn. split; cbn; try discriminate; try (intros; discriminate).
+    + intro s. split; [congruence|lia].
+    + reflexivity.
+    + intros z Hz. lia.
+  - intros i Hi. exfalso. apply Hi. reflexivity.
+Qed.
+
+(* C05, assembled *)
+Theorem numbering_invariant : forall cfg c st,
+  NoDup (chain_txids c) ->
+  index_chain cfg 0 c empty_state = Ok st ->
+  Inv5s (c_jubilee cfg) st /\ (forall i, dom (s_id2seq st) i -> In (fst i) (chain_txids c)).
+Proof.
+  intros cfg c st ND H.
+  assert (FR : forall x, In x (chain_txids c) -> ~ In x (@nil N)) by (intros x _ []).
+  destruct (index_chain_st5 cfg c 0 [] empty_state st (St5_empty _) ND FR H) as (seen' & [HI HS] & HQ).
+  split; auto. intros i Hi. apply HS in Hi. apply HQ in Hi. destruct Hi as [Hi|[]]. exact Hi.
+Qed.
